@@ -14,7 +14,7 @@ ASSUME = ["CQ-map layout as in discopy.quantum.cqmap (classical wires, quantum w
           "|x - y| <= 1e-9 * max(1, max|y|)",
           "bounded: mixed circuits of the model (weight = #bits + 2 #qubits of every intermediate type bounded)"]
 CONST = {"quick": {"MaxWeight": 4, "MaxMLayers": 2, "replay": 700},
-         "thorough": {"MaxWeight": 5, "MaxMLayers": 2, "replay": 20000}}
+         "thorough": {"MaxWeight": 5, "MaxMLayers": 2, "replay": 5000}}
 
 
 def VC():
